@@ -88,6 +88,12 @@ def run(R):
     # (1) update 1 committed, update 2 late / never
     run_bmc_property(R, 'C41', sizes, n1=sizes.J - 1 if quick else 2, g1=1, alphabet=ALPH, depth=2, asserts=asserts, classify=classify,
                      extra_seqs=DEEP, workers=w)
+    # (1b) three updates: update 3 inserted while update 2 is committed, update 3 late or never
+    sizes3 = model.Sizes(J=4, G=2, U=3, I=1, A=2, T=2, IC=1)
+    run_bmc_property(R, 'C41', sizes3, n1=2, g1=1, alphabet=[], depth=0, asserts=asserts, classify=classify,
+                     extra_seqs=[('u2_create', 'u3_create', 'u3_jobs', 'u2_jobs', 'u2_commit'),
+                                 ('u2_create', 'u2_jobs', 'u3_create', 'u3_jobs', 'u2_commit', 'schedule'),
+                                 ('u2_create', 'u3_create', 'u2_jobs', 'u3_jobs', 'u3_commit', 'u2_commit')], workers=w)
     # (2) update 1 itself never committed: driver operations and a second client's update
     run_bmc_property(R, 'C41', sizes, n1=sizes.J - 1 if quick else 2, g1=1, alphabet=['cancel_group', 'u2_create', 'u2_jobs', 'u2_commit', 'schedule'],
                      depth=2, asserts=asserts, classify=classify, commit=False,
